@@ -13,11 +13,34 @@ Arguments set_slot fr v /.
 Arguments st_disp st v /. Arguments st_data st r n /. Arguments st_fallback st v /. Arguments st_inst st v /.
 Arguments stuck fr st /.
 
-Ltac ev := unfold entry, call_depth, init_frame;
-  cbn -[is_forbidden lookup known in_inst as_usize Z.ltb Z.leb id_succ add_id set_disp N.eqb MAX_SIGNUM accepts out_of_table].
+Lemma in_inst_nil : forall s, in_inst s [] = false. Proof. reflexivity. Qed.
+
+(** Symbolic evaluation of [entry] on the generated skeleton: the state is split into its fields,
+    the call is abstracted ([remember]) and evaluated ONCE in a hypothesis with [cbv] (everything
+    about the interpreter unfolds; the atoms the outcome depends on stay folded), equations about
+    the atoms that are in the context are rewritten, and so on until a result tuple is left. *)
+Ltac ev_in H := unfold entry, call_depth, init_frame in H;
+  cbv -[is_forbidden lookup known in_inst as_usize Z.ltb Z.leb id_succ add_id set_disp N.eqb MAX_SIGNUM
+        existsb app os_query os_set] in H.
+Ltac rw_atoms H :=
+  repeat match goal with
+  | E : ?a = ?b |- _ =>
+      tryif is_var a then fail else
+      match type of H with context [a] => rewrite E in H end
+  end.
+Ltac split_state st :=
+  let d := fresh "d" in let rg := fresh "rg" in let n := fresh "n" in let fb := fresh "fb" in let i := fresh "i" in
+  destruct st as [d rg n fb i]; cbn [disp_of reg next_id fallback inst] in *.
+Ltac eval_entry :=
+  match goal with
+  | |- context [entry ?o ?k ?f ?sig ?st] =>
+      let r := fresh "r" in let Hr := fresh "Hr" in
+      remember (entry o k f sig st) as r eqn:Hr; ev_in Hr;
+      repeat (progress (rw_atoms Hr; rewrite ?in_inst_nil in Hr); ev_in Hr);
+      subst r
+  end.
 
 (** ---- small facts ---- *)
-Lemma in_inst_nil : forall s, in_inst s [] = false. Proof. reflexivity. Qed.
 
 Lemma in_inst_In : forall s l, in_inst s l = true <-> In s l.
 Proof.
@@ -118,11 +141,13 @@ Qed.
 
 (** ---- the refusal clauses, for every checked entry point at once ---- *)
 Ltac each_checked Hf := simpl in Hf; repeat (destruct Hf as [<-|Hf]); try contradiction.
+(** case split on the descriptor kind only where the evaluation depends on it *)
 Ltac pick_fd k Hk := destruct k; try (exfalso; apply Hk; reflexivity).
 Ltac refused_tac W :=
   unfold refused, same_core, fallback_story, fallback_inert, r_out, r_state, r_released, r_kept, r_leaked, all_params;
   cbn [fst snd disp_of reg next_id fallback inst params map];
   repeat split; auto using incl_refl, incl_nil_l; try (apply (wf_inert _ _ W)).
+Ltac new_inst Hnew := try (symmetry; apply Hnew; reflexivity).
 
 Lemma checked_forbidden : forall o k f sig st,
   In f checked_eps -> k <> FdBad -> wf o st -> (f = FSignalsNew -> inst st = []) ->
@@ -132,9 +157,8 @@ Proof.
   intros o k f sig st Hf Hk W Hnew HF.
   pose proof (forb_known _ HF) as HK. destruct (forb_in_table _ HF) as [HT [HN _]].
   pose proof (not_in_inst_forbidden _ _ _ W HF) as HI.
-  pick_fd k Hk; each_checked Hf; ev;
-    repeat (progress (rewrite ?HK, ?HT, ?HN, ?HF, ?HI, ?in_inst_nil); ev);
-    refused_tac W; try (symmetry; apply Hnew; reflexivity).
+  split_state st.
+  pick_fd k Hk; each_checked Hf; eval_entry; refused_tac W; new_inst Hnew.
 Qed.
 
 Lemma checked_out_of_table : forall o k f sig st,
@@ -144,9 +168,8 @@ Lemma checked_out_of_table : forall o k f sig st,
 Proof.
   intros o k f sig st Hf Hit W Hnew HC HO.
   pose proof (out_of_table_index _ HC HO) as HT.
-  each_checked Hf; try discriminate Hit; ev;
-    repeat (progress (rewrite ?HT, ?in_inst_nil); ev);
-    refused_tac W; try (symmetry; apply Hnew; reflexivity).
+  split_state st.
+  each_checked Hf; try discriminate Hit; eval_entry; refused_tac W; new_inst Hnew.
 Qed.
 
 Lemma cond_default_unknown : forall o k sig st,
@@ -155,7 +178,7 @@ Lemma cond_default_unknown : forall o k sig st,
   r_state (entry o k FFlagCondDefault sig st) = st /\
   refused o FFlagCondDefault sig st (entry o k FFlagCondDefault sig st).
 Proof.
-  intros o k sig st W HK. ev. rewrite HK. ev. refused_tac W.
+  intros o k sig st W HK. split_state st. eval_entry. refused_tac W.
 Qed.
 
 Lemma checked_rejected : forall o k f sig st,
@@ -170,25 +193,39 @@ Proof.
   destruct (not_in_inst_unaccepted _ _ _ W HA) as [HI HL].
   assert (HTN : iterator_ep f = true -> (as_usize sig <? MAX_SIGNUM) = true /\ (sig <? 0) = false)
     by (intros E; apply table_cases; auto).
-  unfold accepts in HA.
+  unfold accepts in HA. split_state st.
   pick_fd k Hk; each_checked Hf;
     try (destruct (HTN eq_refl) as [HT HN]); try (pose proof (Hcd eq_refl) as HK);
-    destruct (os_query o sig) eqn:HQ; cbn [andb] in HA; ev;
-    repeat (progress (rewrite ?HK, ?HT, ?HN, ?HF, ?HI, ?HL, ?HQ, ?HA, ?in_inst_nil); ev);
-    refused_tac W; try (symmetry; apply Hnew; reflexivity); auto.
+    destruct (os_query o sig) eqn:HQ; cbn [andb] in HA; eval_entry;
+    refused_tac W; new_inst Hnew; auto.
 Qed.
 
 Lemma set_disp_same : forall f s d, set_disp f s d s = d.
 Proof. intros. unfold set_disp. now rewrite Z.eqb_refl. Qed.
 Lemma set_disp_other : forall f s d x, x <> s -> set_disp f s d x = f x.
 Proof. intros. unfold set_disp. destruct (x =? s) eqn:E; [apply Z.eqb_eq in E; contradiction|reflexivity]. Qed.
+Lemma lookup_add_id_other : forall s sig id r, s <> sig -> lookup s (add_id sig id r) = lookup s r.
+Proof.
+  intros. rewrite lookup_add_id. destruct (s =? sig) eqn:E; [apply Z.eqb_eq in E; contradiction|reflexivity].
+Qed.
+Lemma lookup_app_other : forall s sig ids r, s <> sig -> lookup s (r ++ [(sig, ids)]) = lookup s r.
+Proof.
+  intros. rewrite lookup_app. destruct (lookup s r); [reflexivity|].
+  destruct (sig =? s) eqn:E; [apply Z.eqb_eq in E; congruence|reflexivity].
+Qed.
+Lemma lookup_add_id_same : forall sig id r ids, lookup sig r = Some ids -> lookup sig (add_id sig id r) <> None.
+Proof. intros. rewrite lookup_add_id, Z.eqb_refl, H. discriminate. Qed.
+Lemma lookup_app_same : forall sig ids r, lookup sig (r ++ [(sig, ids)]) <> None.
+Proof. intros. rewrite lookup_app. destruct (lookup sig r); [discriminate|]. rewrite Z.eqb_refl. discriminate. Qed.
 
-Ltac registered_tac :=
+Ltac registered_tac HL :=
   unfold registered, is_ok, r_out, r_state, r_released, r_kept, r_leaked;
   cbn [fst snd disp_of reg next_id fallback inst];
-  repeat split; auto using set_disp_same, set_disp_other;
-  try (intros s0 Hs0; rewrite ?lookup_add_id, ?lookup_app);
-  try (rewrite ?lookup_add_id, ?lookup_app, ?Z.eqb_refl).
+  repeat split;
+  auto using set_disp_same, set_disp_other, lookup_add_id_other, lookup_app_other, lookup_app_same;
+  try (right; rewrite HL; discriminate);
+  try (rewrite HL; discriminate);
+  try (eapply lookup_add_id_same; exact HL).
 
 Lemma checked_accepted : forall o k f sig st,
   In f checked_eps -> k <> FdBad -> wf o st -> (f = FSignalsNew -> inst st = []) ->
@@ -204,24 +241,16 @@ Proof.
   unfold accepts in HA. apply andb_true_iff in HA. destruct HA as [HQ HS].
   destruct (lookup sig (reg st)) as [ids|] eqn:HL.
   - pose proof (fresh_below _ _ (fun id => wf_ids_below _ _ W _ _ id HL)) as HFr.
-    destruct (in_inst sig (inst st)) eqn:HI;
+    destruct (in_inst sig (inst st)) eqn:HI; split_state st;
     pick_fd k Hk; each_checked Hf;
-      try (destruct (HTN eq_refl) as [HT HN]); try (pose proof (Hcd eq_refl) as HK); ev;
-      repeat (progress (rewrite ?HK, ?HT, ?HN, ?HF, ?HI, ?HL, ?HFr, ?HQ, ?HS, ?in_inst_nil); ev);
-      registered_tac.
-    all: try (rewrite HL; discriminate).
-    all: try (right; rewrite HL; discriminate).
-    all: try (destruct (s0 =? sig) eqn:E; [apply Z.eqb_eq in E; contradiction|reflexivity]).
-    all: try (cbn; discriminate).
+      try (destruct (HTN eq_refl) as [HT HN]); try (pose proof (Hcd eq_refl) as HK);
+      eval_entry; registered_tac HL.
   - destruct (in_inst sig (inst st)) eqn:HI.
     { apply in_inst_In in HI. destruct (wf_inst _ _ W _ HI) as [_ [H _]]. congruence. }
+    split_state st.
     pick_fd k Hk; each_checked Hf;
-      try (destruct (HTN eq_refl) as [HT HN]); try (pose proof (Hcd eq_refl) as HK); ev;
-      repeat (progress (rewrite ?HK, ?HT, ?HN, ?HF, ?HI, ?HL, ?HQ, ?HS, ?in_inst_nil); ev);
-      registered_tac.
-    all: try (rewrite HL; discriminate).
-    all: try (destruct (lookup s0 (reg st)); [reflexivity|];
-              destruct (sig =? s0) eqn:E; [apply Z.eqb_eq in E; congruence|reflexivity]).
+      try (destruct (HTN eq_refl) as [HT HN]); try (pose proof (Hcd eq_refl) as HK);
+      eval_entry; registered_tac HL.
 Qed.
 
 Lemma checked_ok_id : forall o k f sig st,
@@ -234,9 +263,9 @@ Proof.
   unfold accepts in HA. apply andb_true_iff in HA. destruct HA as [HQ HS].
   destruct (lookup sig (reg st)) as [ids|] eqn:HL;
     [pose proof (fresh_below _ _ (fun id => wf_ids_below _ _ W _ _ id HL)) as HFr|];
+    split_state st;
     pick_fd k Hk; each_checked Hf; try discriminate Hit;
-      try (pose proof (Hcd eq_refl) as HK); ev;
-      repeat (progress (rewrite ?HK, ?HF, ?HL, ?HFr, ?HQ, ?HS); ev);
+      try (pose proof (Hcd eq_refl) as HK); eval_entry;
       repeat split; reflexivity.
 Qed.
 
@@ -249,13 +278,8 @@ Proof.
   unfold accepts in HA. apply andb_true_iff in HA. destruct HA as [HQ HS].
   destruct (lookup sig (reg st)) as [ids|] eqn:HL;
     [pose proof (fresh_below _ _ (fun id => wf_ids_below _ _ W _ _ id HL)) as HFr|];
-    each_checked Hf; ev; repeat (progress (rewrite ?HL, ?HFr, ?HQ, ?HS); ev);
-    (split; [reflexivity|]); registered_tac.
-  all: try (right; rewrite HL; discriminate).
-  all: try (rewrite HL; discriminate).
-  all: try (destruct (s0 =? sig) eqn:E; [apply Z.eqb_eq in E; contradiction|reflexivity]).
-  all: try (destruct (lookup s0 (reg st)); [reflexivity|];
-            destruct (sig =? s0) eqn:E; [apply Z.eqb_eq in E; congruence|reflexivity]).
+    split_state st;
+    each_checked Hf; eval_entry; (split; [reflexivity|]); registered_tac HL.
 Qed.
 
 Lemma unchecked_rejected : forall o k f sig st,
@@ -263,13 +287,12 @@ Lemma unchecked_rejected : forall o k f sig st,
   let r := entry o k f sig st in
   r_out r = Err EOs /\ same_core st (r_state r) /\
   fallback (r_state r) = (if os_query o sig then Some sig else fallback st) /\
-  fallback_inert (r_state r) /\ r_released r = [] /\ r_kept r = [] /\ r_leaked r = [].
+  fallback_inert (r_state r) /\ r_released r = all_params f /\ r_kept r = [] /\ r_leaked r = [].
 Proof.
-  intros o k f sig st Hf W HA.
+  intros o k f sig st Hf W HA r. subst r.
   destruct (not_in_inst_unaccepted _ _ _ W HA) as [_ HL].
-  unfold accepts in HA.
-  each_checked Hf; destruct (os_query o sig) eqn:HQ; cbn [andb] in HA; ev;
-    repeat (progress (rewrite ?HL, ?HQ, ?HA); ev);
+  unfold accepts in HA. split_state st.
+  each_checked Hf; destruct (os_query o sig) eqn:HQ; cbn [andb] in HA; eval_entry;
     unfold same_core, fallback_inert, r_out, r_state, r_released, r_kept, r_leaked;
     cbn [fst snd disp_of reg next_id fallback inst];
     repeat split; auto; apply (wf_inert _ _ W).
@@ -355,17 +378,17 @@ Proof.
   apply Z.ltb_lt in H1. now apply Z.leb_gt.
 Qed.
 
-Ltac split_atom :=
-  match goal with
-  | |- context [is_forbidden ?s] => destruct (is_forbidden s) eqn:?
-  | |- context [known ?s] => destruct (known s) eqn:?
-  | |- context [as_usize ?s <? MAX_SIGNUM] => destruct (as_usize s <? MAX_SIGNUM) eqn:?
-  | |- context [?s <? 0] => destruct (s <? 0) eqn:?
-  | |- context [in_inst ?s ?l] => destruct (in_inst s l) eqn:?
-  | |- context [lookup ?s ?r] => destruct (lookup s r) eqn:?
-  | |- context [existsb (N.eqb ?n) ?l] => destruct (existsb (N.eqb n) l) eqn:?
-  | |- context [os_query ?o ?s] => destruct (os_query o s) eqn:?
-  | |- context [os_set ?o ?s] => destruct (os_set o s) eqn:?
+Ltac split_atom H :=
+  match type of H with
+  | context [is_forbidden ?s] => destruct (is_forbidden s) eqn:?
+  | context [known ?s] => destruct (known s) eqn:?
+  | context [as_usize ?s <? MAX_SIGNUM] => destruct (as_usize s <? MAX_SIGNUM) eqn:?
+  | context [?s <? 0] => destruct (s <? 0) eqn:?
+  | context [in_inst ?s ?l] => destruct (in_inst s l) eqn:?
+  | context [lookup ?s ?r] => destruct (lookup s r) eqn:?
+  | context [existsb (N.eqb ?n) ?l] => destruct (existsb (N.eqb n) l) eqn:?
+  | context [os_query ?o ?s] => destruct (os_query o s) eqn:?
+  | context [os_set ?o ?s] => destruct (os_set o s) eqn:?
   end.
 
 Ltac grows_tac :=
@@ -380,14 +403,16 @@ Lemma wf_preserved : forall o k f sig st,
   (f = FSignalsNew -> inst st = []) ->
   wf o (r_state (entry o k f sig st)).
 Proof.
-  intros o k f sig st Hf W Hn Hnew.
-  destruct k; each_checked Hf; ev; rewrite ?in_inst_nil; ev;
-    repeat (split_atom; ev; rewrite ?in_inst_nil; ev);
-    unfold r_state; cbn [fst snd];
-    first [ exact W
-          | apply (wf_ext o st); cbn [disp_of reg next_id inst]; auto; symmetry; apply Hnew; reflexivity
-          | eapply wf_occupied; eauto; grows_tac
-          | eapply wf_vacant; eauto; grows_tac ].
+  intros o k f sig st Hf W Hn Hnew. split_state st.
+  each_checked Hf;
+    (remember (entry o k _ sig _) as r eqn:Hr; ev_in Hr; rewrite ?in_inst_nil in Hr; ev_in Hr;
+     repeat (first [split_atom Hr | destruct k]; ev_in Hr; rewrite ?in_inst_nil in Hr; ev_in Hr);
+     subst r; unfold r_state; cbn [fst snd];
+     first [ exact W
+           | apply (wf_ext o _ _ eq_refl eq_refl eq_refl (eq_sym (Hnew eq_refl)) W)
+           | apply (wf_ext o _ _ eq_refl eq_refl eq_refl eq_refl W)
+           | eapply (wf_occupied o _ sig); [exact W|eassumption|exact Hn|grows_tac]
+           | eapply (wf_vacant o _ sig); [exact W|eassumption|eassumption|eassumption|exact Hn|grows_tac] ]).
 Qed.
 
 (** ---- non-vacuity: a concrete Linux/glibc verdict table (the probe re-measures it on every run)
@@ -502,7 +527,7 @@ Lemma unchecked_all : forall (o : os) (k : fdkind) (f : fn_id) (sig : Z) (st : s
   (accepts o sig = false ->
      r_out r = Err EOs /\ same_core st (r_state r) /\
      fallback (r_state r) = (if os_query o sig then Some sig else fallback st) /\
-     fallback_inert (r_state r) /\ r_released r = [] /\ r_kept r = [] /\ r_leaked r = []).
+     fallback_inert (r_state r) /\ r_released r = all_params f /\ r_kept r = [] /\ r_leaked r = []).
 Proof.
   intros o k f sig st Hf W r. subst r. split; intros HA.
   - apply unchecked_accepted; auto.
